@@ -845,7 +845,21 @@ pub fn run(args: &Args) {
                     plain.push(true);
                 }
             }
-            let g = Geometry::new(devs);
+            let mut g = Geometry::new(devs);
+            // the enable flag is not part of a device's pose: disabled devices travel like any other
+            // (every other round: each device disabled with probability 1/3, so also below/between enabled ones)
+            if round % 2 == 1 {
+                let mut any = false;
+                for d in g.iter_mut() {
+                    if rng.chance(1, 3) {
+                        d.enable = false;
+                        any = true;
+                    }
+                }
+                if any {
+                    ctx.out.count("geometry with disabled devices");
+                }
+            }
             geo_case(&mut ctx, &g, &plain, tag);
         }
     }
